@@ -1003,6 +1003,44 @@ def deep_queue_cases(rng, prefix="k"):
     return cases
 
 
+def close_behind_queued_cases(rng, prefix="c"):
+    """Submissions are waiting in one or two channels' queues - not yet taken by the I/O thread, with
+    the channels polled or deregistered (throttled) - when the client's Connection.Close is taken off
+    channel 0's queue: they were submitted before close() was called, so they go out before the Close."""
+    cases = []
+    n = 0
+    for throttled in (False, True):
+        for layout in ((1, 0), (3, 0), (1, 1), (2, 3)):
+            for order in ("close-first", "channels-first-partly"):
+                g = Gen(rng, chmax=3, bound=8, via_stream=0.0)
+                h1 = g.open_channel(1); g.bind_opened(h1, 1)
+                h2 = g.open_channel(2); g.bind_opened(h2, 2)
+                g.op("wscript w:1000000"); g.op("write")
+                if throttled:
+                    g.op("dereg")
+                k = 0
+                for h, ch, cnt in ((h1, 1, layout[0]), (h2, 2, layout[1])):
+                    for _ in range(cnt):
+                        k += 1
+                        g.op("send %s send %s" % (h, hx(amqp.basic_ack(ch, k, False))))
+                if order == "channels-first-partly" and not throttled:
+                    g.op("ev 1")                        # channel 1's queue was looked at, channel 2's not yet
+                g.op("send %s send %s" % (h2, hx(amqp.basic_ack(2, 99, False))))
+                g.op("send 0 close0 %s" % hx(amqp.connection_close(200, "goodbye")))
+                g.op("ev 0")
+                g.op("dump")
+                if throttled:
+                    g.op("rereg")
+                g.op("ev 1"); g.op("ev 2")
+                g.op("wscript w:1000000"); g.op("write"); g.op("dump")
+                g.feed([conn_close_ok()], direct=True)
+                g.op("recv 0 -")
+                g.finish()
+                n += 1
+                cases.append(g.case("%s%d" % (prefix, n)))
+    return cases
+
+
 def listener_mid_content_cases(rng, prefix="m"):
     """A listener (return / confirm / blocked) is registered or replaced BETWEEN two frames of one
     content-bearing message (returned message, delivery, get answer) on that channel: the message
